@@ -129,7 +129,8 @@ def cli_args(cfg, data, threads=1, alt=False, saves=None, force=False, ref=None)
     if cfg.get("high_memory"):
         a += ["--high_memory"]
     if cfg.get("genedb", True):
-        a += ["--genedb", p["db"], "--complete_genedb"]
+        # `gtf_input`: the annotation as GTF - the run converts it (gffutils / sqlite, inside the output folder) after `.params`
+        a += ["--genedb", p["gtf"] if cfg.get("gtf_input") else p["db"], "--complete_genedb"]
     if cfg.get("rg") == "inline":
         a += ["--read_group", "read_id:_"]
     elif cfg.get("rg") == "file":
@@ -187,10 +188,11 @@ def read_output(p):
         return f.read()
 
 
-def run_wrapped(workdir, cfg, data, crash=None, resume=False, threads=1, timeout=600, args=None, state="state"):
+def run_wrapped(workdir, cfg, data, crash=None, resume=False, threads=1, timeout=600, args=None, state="state",
+                resume_state="state_resume"):
     """one (possibly killed) run under the wrapper in `workdir` (out/, home/, state*/).  Returns (rc, log, trace).
     `args`: the command line of a history scenario (default: cli_args of the configuration)"""
-    state = os.path.join(workdir, "state_resume" if resume else state)
+    state = os.path.join(workdir, resume_state if resume else state)
     os.makedirs(state, exist_ok=True)
     env = {"ABLAB_ISOQUANT_VERIF": "1", "VERIF_C07_STATE": state, "VERIF_REPO": P.REPO}
     if crash:
@@ -201,6 +203,33 @@ def run_wrapped(workdir, cfg, data, crash=None, resume=False, threads=1, timeout
     rc, log = P.run_isoquant(os.path.join(workdir, "out"), args, home=os.path.join(workdir, "home"), env=env,
                              wrapper=WRAP, timeout=timeout)
     return rc, log, read_trace(state)
+
+
+def crash_resume_twice(workdir, cfg, data, k1, ph1, k2, ph2, clean_outputs, prepare=None, args=None, prefix=PREFIX):
+    """two interruptions: the run is killed at its mutation k1, the resumed run at ITS mutation k2 (own numbering), then
+    --resume runs to its end and is judged.  Returns dict(verdict, detail, trace2 = trace of the killed resumed run,
+    resume_trace = trace of the last run, snapshot = files after the second kill)"""
+    shutil.rmtree(workdir, ignore_errors=True)
+    os.makedirs(workdir)
+    if prepare:
+        prepare(workdir)
+    rc1, _, tr1 = run_wrapped(workdir, cfg, data, crash=(k1, ph1), args=args(workdir) if args else None)
+    if rc1 == 0:
+        return {"verdict": "NOCRASH", "detail": "first run finished before mutation %d" % k1}
+    rc2, _, tr2 = run_wrapped(workdir, cfg, data, resume=True, crash=(k2, ph2))
+    snap = snapshot(os.path.join(workdir, "out"))
+    if rc2 == 0:
+        return {"verdict": "NOCRASH", "detail": "resumed run finished before its mutation %d" % k2, "trace2": tr2}
+    rc3, log3, tr3 = run_wrapped(workdir, cfg, data, resume=True, resume_state="state_resume2")
+    if rc3 != 0:
+        err = [l for l in log3.split("\n") if "Error" in l or "error" in l][-2:]
+        return {"verdict": "FAIL", "detail": "rc=%d %s" % (rc3, err), "trace2": tr2, "resume_trace": tr3, "snapshot": snap}
+    got = final_outputs(os.path.join(workdir, "out"), prefix)
+    if got == clean_outputs:
+        return {"verdict": "EQUAL", "detail": "", "trace2": tr2, "resume_trace": tr3, "snapshot": snap}
+    bad = sorted(f for f in set(got) | set(clean_outputs) if got.get(f) != clean_outputs.get(f))
+    return {"verdict": "DIFF", "detail": "differing/missing/extra final files: %s" % bad, "trace2": tr2, "resume_trace": tr3,
+            "snapshot": snap}
 
 
 def snapshot(outdir):
